@@ -1,10 +1,9 @@
-// extract: regenerates lean/HcModel/Generated/<Target>.lean from the working tree of brutella/hc.
+// extract regenerates lean/HcModel/Generated/<Target>.lean from the working tree of brutella/hc.
 //
-//	extract -repo <hc checkout> -out <…/lean/HcModel/Generated> -verif <verif dir> <target>…
+//	extract -repo <dir> -out <lean/HcModel/Generated dir> -verif <dir> <targets…>
 //
-// Targets are registered in `targets`; ./check passes the ones listed for the property in generated_map.json.
-// The harness module already replaces github.com/brutella/hc by the checkout (go.mod written by ./check),
-// and the extractor is run with the harness directory as working directory.
+// Each target is a function registered in `targets` (one file per target family, e.g. catalog.go);
+// the stale generated file of a target is deleted before it is regenerated.
 package main
 
 import (
@@ -17,68 +16,75 @@ import (
 )
 
 type env struct {
-	repo, out, verif string
+	Repo, Out, Verif string
+	scratch          string
 }
 
+// targets maps a target name to its generator; a generator returns the text of Generated/<name>.lean.
 var targets = map[string]func(e *env) (string, error){}
 
-func main() {
-	repo := flag.String("repo", "/repo", "checkout of brutella/hc")
-	out := flag.String("out", "", "directory of the generated Lean files")
-	verif := flag.String("verif", "/verif", "verification directory (scratch space below .scratch)")
-	flag.Parse()
-	if *out == "" {
-		*out = filepath.Join(*verif, "lean", "HcModel", "Generated")
+// Scratch returns a fresh directory under $VERIF/.scratch (removed when extract exits).
+func (e *env) Scratch(name string) string {
+	if e.scratch == "" {
+		e.scratch = filepath.Join(e.Verif, ".scratch", fmt.Sprintf("extract-%d", os.Getpid()))
 	}
-	e := &env{*repo, *out, *verif}
+	d := filepath.Join(e.scratch, name)
+	os.MkdirAll(d, 0755)
+	return d
+}
+
+func main() {
+	e := &env{}
+	flag.StringVar(&e.Repo, "repo", "/repo", "working tree of brutella/hc")
+	flag.StringVar(&e.Out, "out", "", "directory lean/HcModel/Generated")
+	flag.StringVar(&e.Verif, "verif", "/verif", "verification directory (scratch files go to <verif>/.scratch)")
+	flag.Parse()
+	if e.Out == "" {
+		e.Out = filepath.Join(e.Verif, "lean", "HcModel", "Generated")
+	}
 	if flag.NArg() == 0 {
 		var ns []string
 		for n := range targets {
 			ns = append(ns, n)
 		}
 		sort.Strings(ns)
-		fmt.Println("targets:", ns)
-		return
+		fmt.Fprintln(os.Stderr, "extract: no target given; known targets:", ns)
+		os.Exit(2)
 	}
-	os.MkdirAll(*out, 0755)
+	code := 0
+	defer func() {
+		if e.scratch != "" {
+			os.RemoveAll(e.scratch)
+		}
+		os.Exit(code)
+	}()
+	os.MkdirAll(e.Out, 0755)
 	for _, t := range flag.Args() {
-		fn, ok := targets[t]
+		gen, ok := targets[t]
 		if !ok {
 			fmt.Fprintf(os.Stderr, "extract: unknown target %q\n", t)
-			os.Exit(2)
+			code = 2
+			return
 		}
-		dst := filepath.Join(*out, t+".lean")
-		src, err := fn(e)
+		file := filepath.Join(e.Out, t+".lean")
+		os.Remove(file) // never leave a stale table behind
+		txt, err := gen(e)
 		if err != nil {
-			os.Remove(dst) // never leave a stale table behind
 			fmt.Fprintf(os.Stderr, "extract %s: %v\n", t, err)
-			os.Exit(1)
+			code = 1
+			return
 		}
-		if old, err := ioutil.ReadFile(dst); err == nil && string(old) == src {
-			continue // unchanged: keep the time stamp so lake does not rebuild
-		}
-		if err := ioutil.WriteFile(dst, []byte(src), 0644); err != nil {
+		tmp := file + fmt.Sprintf(".%d", os.Getpid())
+		if err := ioutil.WriteFile(tmp, []byte(txt), 0644); err != nil {
 			fmt.Fprintf(os.Stderr, "extract %s: %v\n", t, err)
-			os.Exit(1)
+			code = 1
+			return
 		}
-	}
-}
-
-func leanString(s string) string {
-	out := "\""
-	for _, r := range s {
-		switch {
-		case r == '"':
-			out += "\\\""
-		case r == '\\':
-			out += "\\\\"
-		case r == '\n':
-			out += "\\n"
-		case r < 0x20 || r == 0x7f:
-			out += fmt.Sprintf("\\x%02x", r)
-		default:
-			out += string(r)
+		if err := os.Rename(tmp, file); err != nil {
+			fmt.Fprintf(os.Stderr, "extract %s: %v\n", t, err)
+			code = 1
+			return
 		}
+		fmt.Printf("extract: wrote %s (%d bytes)\n", file, len(txt))
 	}
-	return out + "\""
 }
